@@ -488,7 +488,12 @@ impl<'a> GeneratorState<'a> {
             Expr::BinOp { lhs, op, rhs } => match op {
                 Operation::Assign => {
                     let left = self.generate_expr(lhs, pos, high_byte, high_byte)?;
+                    // A destination indexed by the program's own Y needs it until the store
+                    let left_uses_program_y = matches!(left, ExprType::AbsoluteY(_)) && !self.saved_y;
                     let right = self.generate_expr(rhs, pos, high_byte, high_byte)?;
+                    if left_uses_program_y && self.saved_y {
+                        return Err(self.compiler_state.syntax_error("Y is used both as an index and as a value in this statement. Please use an intermediate variable", pos));
+                    }
                     let ret = self.generate_assign(&left, &right, pos, high_byte);
                     // A destination indexed by the parked Y keeps it until its high byte is stored
                     let left_needs_y = matches!(left, ExprType::AbsoluteY(_));
